@@ -454,29 +454,58 @@ pub fn gen_named_string(r: &mut Rng) -> String {
     s
 }
 
-/// A random calendar of any kind whose custom parts live in [z0, z1].
+/// A random calendar of any kind whose custom parts live in [z0, z1]. Unions keep at least one
+/// weekday (`w`, Mon-Fri) that is a working day in every member and settlement calendar, so that
+/// the effective calendar "leaves at least one working weekday" as the properties require.
 pub fn gen_calspec(r: &mut Rng, z0: i64, z1: i64) -> CalSpec {
     match r.below(10) {
         0 => gen_builtin(r),
         1 | 2 => CalSpec::Named(gen_named_string(r)),
         3..=5 => gen_custom(r, z0, z1),
-        _ => {
-            let nm = 1 + r.usize(3);
-            let mut members = vec![];
-            for _ in 0..nm {
-                members.push(if r.chance(0.7) { gen_custom(r, z0, z1) } else { gen_builtin(r) });
-            }
-            let settle = if r.chance(0.7) {
-                let ns = 1 + r.usize(2);
-                let mut v = vec![];
-                for _ in 0..ns {
-                    v.push(if r.chance(0.7) { gen_custom(r, z0, z1) } else { gen_builtin(r) });
-                }
-                Some(v)
-            } else {
-                None
-            };
-            CalSpec::Union { members, settle }
-        }
+        _ => gen_union(r, z0, z1),
     }
+}
+
+fn keep_working(spec: CalSpec, w: u8) -> CalSpec {
+    match spec {
+        CalSpec::Custom { mut week_mask, holidays } => {
+            week_mask.retain(|d| *d != w);
+            CalSpec::Custom { week_mask, holidays }
+        }
+        other => other,
+    }
+}
+
+pub fn gen_union(r: &mut Rng, z0: i64, z1: i64) -> CalSpec {
+    let w = r.below(5) as u8;
+    let nm = 1 + r.usize(3);
+    let mut members = vec![];
+    for _ in 0..nm {
+        let m = if r.chance(0.7) { gen_custom(r, z0, z1) } else { gen_builtin(r) };
+        members.push(keep_working(m, w));
+    }
+    let settle = if r.chance(0.7) {
+        let ns = 1 + r.usize(2);
+        let mut v = vec![];
+        for _ in 0..ns {
+            let m = if r.chance(0.7) { gen_custom(r, z0, z1) } else { gen_builtin(r) };
+            v.push(keep_working(m, w));
+        }
+        Some(v)
+    } else {
+        None
+    };
+    CalSpec::Union { members, settle }
+}
+
+/// run a generic closure-like body on whichever concrete calendar type was built
+#[macro_export]
+macro_rules! with_cal {
+    ($any:expr, $c:ident => $body:expr) => {
+        match $any {
+            $crate::calmodel::AnyCal::Cal($c) => $body,
+            $crate::calmodel::AnyCal::Union($c) => $body,
+            $crate::calmodel::AnyCal::Named($c) => $body,
+        }
+    };
 }
